@@ -63,6 +63,12 @@ def rule_unused(prog: Program, modules: Optional[Set[str]] = None) -> List[Insta
             if not _is_used(fi, p):
                 unused.append(p)
         cid = f"{fi.qual}#params-used"
+        decos = {short(d) for d in fi.decorators}
+        if unused and ("@" in fi.qual or any(d.endswith(".register") or "singledispatch" in d or d.endswith("overload") for d in decos)):
+            # one of several same-named variants (the one bound is chosen by a condition) or an overload registered with a
+            # dispatcher: the signature is dictated by the family, a variant need not read every parameter
+            out.append(Instance("R-FORWARD", cid, INFO, f"variant / registered overload with a dictated signature: {unused} unread", fi.where(), nontrivial=False))
+            continue
         if unused:
             out.append(Instance("R-FORWARD", cid, BAD, f"parameter(s) {unused} are never read: the option is silently ignored", fi.where()))
         elif params:
